@@ -400,8 +400,13 @@ def gen_import(rng, rel, d, rels, dirs, with_home):
         return ["path", f"./{os.path.basename(rel)}/../{os.path.basename(rel)}"], "os"
     if r < 0.87:
         return ["path", rng.choice(ANGLES)], "value"
-    if r < 0.94 or not with_home:
+    if r < 0.92:
         return ["other", rng.choice(OTHER_ARGS)], "type"
+    if r < 0.96 or not with_home:  # unconstrained: whatever the kernel makes of it is what is required
+        pool = ["..", "..", "ghost", os.path.basename(rel)] + [os.path.basename(x) for x in dirs if x] + \
+            [os.path.basename(x) for x in rels]
+        comps = [rng.choice(pool) for _ in range(rng.randint(1, 5))]
+        return ["path", rng.choice(["./", "../", "$BASE/"]) + "/".join(comps)], "unknown"
     return ["path", rng.choice(["~/h.nix", "~/nope.nix"])], "home"
 
 
@@ -428,7 +433,7 @@ def gen_chain(rng, layout, intended, max_hops):
             if want in layout["files"]:
                 cur = want
                 continue
-            if want == "home":
+            if want in ("home", "unknown"):
                 keys.append(rng.choice(["v", "v", "s"]))
                 break
             if rng.random() < 0.8:
@@ -468,6 +473,7 @@ class Batch:
         self.ctx = ctx
         self.reqs = []
         self.meta = []
+        self._ghost = {}
 
     def add(self, layout, base, home, inodes, cwd_rel, entry, keys, as_path, observe=True):
         ctx = self.ctx
@@ -480,7 +486,9 @@ class Batch:
         # `./ghost/../x` (ghost missing): the kernel says ENOENT, Nix's lexical reading says `./x`; the
         # property does not choose, so either outcome is accepted (the model follows the kernel).
         want_lex = want
-        if "ghost" in repr(layout) or real != want:
+        if id(layout) not in self._ghost:
+            self._ghost[id(layout)] = "ghost" in repr(layout)
+        if self._ghost[id(layout)] or real != want:
             want_lex, _ = oracle(layout, inodes, base, home, cwd_abs, entry_abs, keys, lexical=True)
         if observe and real != want and real != want_lex:
             want_rel, _ = oracle(layout, inodes, base, home, cwd_abs, entry_abs, keys, home_relative=True)
